@@ -1108,7 +1108,7 @@ pub(crate) mod serde_h {
         let r: Result<UniqueArc<Dp>, E> = UniqueArc::<Dp>::deserialize(De { outcome });
         assert!(unsafe { DP_CALLS } == 1);
         match (r, outcome) {
-            (Ok(u), Ok(x)) => { assert!(u.0 == x && cnt(crate::unique_arc::kani_h::inner_arc(&u)) == 1 && vrt::ga(a0 + 1) && vrt::gd(0)); core::mem::forget(u); }
+            (Ok(u), Ok(x)) => { assert!((*u).0 == x && cnt(crate::unique_arc::kani_h::inner_arc(&u)) == 1 && vrt::ga(a0 + 1) && vrt::gd(0)); core::mem::forget(u); }
             (Err(e), Err(f)) => { assert!(e == f && vrt::ga(a0) && vrt::gd(0) && vrt::glive(1)); }
             _ => { assert!(false, "deserialize outcome does not follow the value's own deserializer"); }
         }
